@@ -191,7 +191,26 @@ def tlc_mc(module, cfg, workers=NCPU, timeout=900, extra=(), xmx="16g", coverage
     return r
 
 
-_re_guard = re.compile(r'^<<"GUARDFAIL", "([^"]+)", (\d+)(?:, (.*))?>>\s*$', re.M)
+_re_guard = re.compile(r'^<<\s*"GUARDFAIL",\s*"([^"]+)",\s*(\d+)(?:,\s*(.*?))?\s*>>\s*$', re.M)
+
+
+def _unwrap_prints(out):
+    """TLC's pretty printer breaks long tuples over several lines (`<< "GUARDFAIL",` followed by indented lines): join them."""
+    res, cur = [], None
+    for l in out.split("\n"):
+        if cur is not None:
+            if l.startswith(" ") or l.startswith("\t"):
+                cur += " " + l.strip()
+                continue
+            res.append(cur)
+            cur = None
+        if l.startswith('<< "GUARDFAIL"') or l.startswith('<<"GUARDFAIL"') and not l.rstrip().endswith(">>"):
+            cur = l.rstrip()
+        else:
+            res.append(l)
+    if cur is not None:
+        res.append(cur)
+    return "\n".join(res)
 
 
 def tlc_tv(trace_path, module="ApiTrace", cfg="ApiTrace.cfg", timeout=1200, xmx="8g", extra_env=None, nlines=None):
@@ -205,7 +224,7 @@ def tlc_tv(trace_path, module="ApiTrace", cfg="ApiTrace.cfg", timeout=1200, xmx=
         env.update(extra_env)
     r = tlc_run(module, cfg, workers=1, timeout=timeout, env=env, xmx=xmx, xss="512m",
                 tag="tv_" + os.path.basename(trace_path))
-    out = r["out"]
+    out = _unwrap_prints(r["out"])
     gf = [(m.group(1), int(m.group(2)), m.group(3) or "") for m in _re_guard.finditer(out)]
     m = _re_diam.search(out)
     consumed = int(m.group(1)) if m else None
